@@ -225,3 +225,7 @@ def const_search(run, obj, args, kwargs, node):
 
 
 REG.stub(("method", "conc:regex", "search"), const_search)
+
+
+# contextlib.nullcontext(): a context manager that does nothing
+REG.stub("contextlib.nullcontext", lambda run, args, kwargs, node: Conc(("cm", (lambda: (args[0] if args else NONE)), (lambda exc: False))))
